@@ -22,7 +22,8 @@ FORMULAS = [
     "y ~ f", "y ~ 0 + f", "y ~ x + f + g", "y ~ f:g", "y ~ x:f", "y ~ f + f:x", "y ~ C(k)", "y ~ 0 + C(k) + x", "y ~ C(g, Sum)", "y ~ g:C(k)",
     "y ~ x + (1|g)", "y ~ (x|g)", "y ~ (f|g)", "y ~ (0 + f|g)", "y ~ (1|g) + (x|h)", "y ~ (x|g:h)", "y ~ (1|C(k))", "y ~ f + (x|g) + (1|h)", "y ~ (1|g) + (1|h) + (x|g)",
 ]
-UNSEEN = {"f": "ab", "g": "ss", "h": "qq", "k": 99}  # longer than, and starting like, a training level
+UNSEEN = {"f": "ab", "g": "ss", "h": "qq", "k": 99, "wid": "G999"}
+WIDE = "y ~ (1|wid) + (x|g)"  # a block of more than 256 columns  # longer than, and starting like, a training level
 MODES = ["error", "warning", "silent"]
 
 
@@ -42,6 +43,9 @@ def cases(tier):
                     if mode != "error" and rows == [0] and seq == "direct":
                         out.append((f, list(vs), rows, mode, seq, "ord"))  # declared (non-alphabetical) level order
         # flavour variation for one placement
+    for vs in (["g"], ["wid"], ["wid", "g"]):
+        for mode in ("silent", "warning") if tier != "quick" else ("silent",):
+            out.append((WIDE, vs, [0] if len(vs) == 1 else "split", mode, "direct", "str"))
     return out
 
 
